@@ -6,8 +6,8 @@ import json
 from concurrent.futures import ThreadPoolExecutor
 import vlib, sysh, stopmodel
 
-HEAD = "init\npolicy 1:F:load 1:F:store 3:F:store 4:F:store 3:L:rmw 4:L:rmw\nZ1 start\nZ2 start\nS 1 0\n"
-LOGICAL = {"Z1": 3, "Z2": 4}
+HEAD = "init\npolicy 1:F:load 1:F:store 3:F:store 4:F:store 5:F:store 3:L:rmw 4:L:rmw 5:L:rmw\nZ1 start\nZ2 start\nZ3 start\nS 1 0\n"
+LOGICAL = {"Z1": 3, "Z2": 4, "Z3": 5}
 
 
 def extract(exe):
@@ -132,7 +132,7 @@ def run_for(ck):
         ck.drifted(f"new-context protocol: constant extraction failed: {ex}")
         return
     ck.extra["newctx_protocol_from_code"] = k
-    for zs in (["Z1"], ["Z1", "Z2"]):
+    for zs in ((["Z1"], ["Z1", "Z2"]) if quick else (["Z1"], ["Z1", "Z2"], ["Z1", "Z2", "Z3"])):
         label = f"newctx-{len(zs)}"
         cfg = vlib.write_cfg(vlib.BUILD / "cfg" / f"NewCtxRA_{label}.cfg", cfg_text(k, zs, True))
         r = vlib.tlc("NewCtxRA", cfg, timeout=600, coverage=quick)
